@@ -95,6 +95,8 @@ type JobResult struct {
 	Skipped     int // work items dropped after MaxViolations counterexamples
 	WallMS      int64
 	Samples     []string
+	started     time.Time
+	wallHit     bool
 	mu          sync.Mutex
 	pending     int
 }
@@ -102,6 +104,7 @@ type JobResult struct {
 // Path is the state of one symbolic path.
 type Path struct {
 	X             *Exec
+	deadline      time.Time
 	C             *term.Ctx
 	S             *term.Session
 	job           *Job
@@ -253,6 +256,9 @@ func (p *Path) sample(extra ...*term.Term) (map[string]*big.Int, bool) {
 // feasible decides whether PC and extra can hold together: a witness from the
 // sampler, else the solver under the feasibility timeout.
 func (p *Path) feasible(extra ...*term.Term) (term.Result, map[string]*big.Int, map[string]bool) {
+	if !p.deadline.IsZero() && time.Now().After(p.deadline) {
+		panic(engineErr{"UNWIND: job wall-clock budget exceeded (feasibility query)"})
+	}
 	if p.nonlinear {
 		if env, ok := p.sample(extra...); ok {
 			return term.Sat, env, map[string]bool{}
@@ -679,6 +685,9 @@ func (p *Path) assert(id string, c *term.Term, where string) {
 	t0 := time.Now()
 	if c.IsTrue() {
 		ob.Status, ob.Trivial = "proved", true
+	} else if !p.deadline.IsZero() && t0.After(p.deadline) {
+		ob.Status = "unknown"
+		ob.Where += " (not attempted: job wall-clock budget exceeded)"
 	} else {
 		r, env, benv, abs := p.refute(p.C.Not(c))
 		ob.Abstract = abs
@@ -780,6 +789,7 @@ type Exec struct {
 	NLFeasTimeout     time.Duration
 	MaxUnknownFeas    int
 	MaxViolations     int
+	JobWall           time.Duration // wall-clock budget of one job (0 = none); exceeding it is reported as UNWIND
 	RepoDir           string
 	asmOnce           sync.Once
 	asmProg           *asmProgram
@@ -892,6 +902,22 @@ func (x *Exec) runPath(it workItem, sess, sessA *term.Session, res *JobResult, f
 		}
 	}
 	stop := x.MaxViolations > 0 && nviol >= x.MaxViolations && res.Paths > 0
+	if res.started.IsZero() {
+		res.started = time.Now()
+	}
+	p.deadline = time.Time{}
+	if x.JobWall > 0 {
+		p.deadline = res.started.Add(x.JobWall)
+		if time.Now().After(p.deadline) {
+			if !res.wallHit {
+				res.wallHit = true
+				res.Errors = append(res.Errors, fmt.Sprintf("UNWIND: job exceeded its wall-clock budget of %v; remaining work items dropped", x.JobWall))
+			}
+			res.Skipped++
+			res.mu.Unlock()
+			return
+		}
+	}
 	if stop {
 		res.Skipped++
 	}
